@@ -1,13 +1,22 @@
 """C25 -- every declared name is found by the runtime lookup of generated tables.
 
 Exploration on real modules: random identifier sets (prefix chains, case pairs,
-'_'/digit/letter borders, standard type names +-1 character) are declared as
-globals, struct/union tags, enum tags and typedefs whose *value/size encodes
-their identity*, emitted as out-of-line ABI modules (emit_python_code, some of
-them ffi.include()ing another one) and compiled API modules, and looked up on
-the ASan/UBSan backend: lib.<name>, ffi.integer_const, ffi.def_extern,
-ffi.typeof('<name>' / 'struct <name>' / 'enum <name>'), sizeof (lazy struct
-completion searches the tag again).  Undeclared neighbours must be rejected.
+'_'/digit/letter borders, standard type names +-1 character, identifiers of 49-300
+characters sharing a long prefix) are declared as globals (#define, enumerator,
+function, variadic function, variable, integer / non-integer constant, extern
+"Python"), struct/union tags (complete, opaque, partial, with an anonymous inner
+struct whose table key is '$<counter>'), enum tags (1-40 enumerators), typedefs and
+typedef-only structs/unions/enums (table key '$NAME') whose *value/size encodes
+their identity*, emitted as out-of-line ABI modules and compiled API modules, alone
+or as groups of 2-4 modules that ffi.include() each other (pair, chain of 3, one
+module including two, a chain under the second include, diamond), and looked up on
+the ASan/UBSan backend through every entry point that takes a name: lib.<name>
+(twice: cache), ffi.integer_const, ffi.addressof(lib, name), lib.<name> = x,
+lib.__dict__ / __all__ / dir(), ffi.def_extern, the array length inside a type
+string ('char[NAME]'), ffi.typeof / sizeof / getctype / new with '<name>' /
+'struct <name>' / 'enum <name>' alone or followed by '*', '[2]', inside a function
+type; lazy struct completion searches the tag ('$<counter>', '$NAME') again.
+Undeclared neighbours must be rejected on the same entry points.
 
 Stand-alone: harness/c25_search.c includes the tree's parse_c_type.c and runs
 search_in_*() and parse_c_type() over tables written in Python sorted() order
@@ -19,27 +28,38 @@ import os, sys, re, json, string, hashlib, subprocess, random, math
 import concurrent.futures as cf
 from vlib import core, build, modbuild
 
-RULE = ("module case = one generated module (out-of-line ABI, ABI including another ABI module, or "
-        "compiled API) declaring 1-400 (API: 1-60) names per kind (globals: #define / enumerator "
-        "/ function / variable / non-integer constant / extern \"Python\"; struct+union tags; enum "
-        "tags; typedefs), names grown by mutation from each other (prefix, extension by '_'/digit/"
-        "letter, case flips, last character moved across the digit<upper<'_'<lower borders, "
-        "doubled, standard type names +-1 character), the same spelling reused across tables where "
-        "C allows; every declared name is looked up on every path and must give its own identity "
-        "(value / array length / struct size / enumerator map), about 2 undeclared neighbours per "
-        "name must be rejected on every path; table case = one synthetic sorted table of 0-400 names "
-        "in the stand-alone harness with all names and 10x as many absent keys, each as an "
-        "unterminated exact-size key and embedded in a longer identifier, through the 4 "
-        "search_in_* functions and parse_c_type; distinct = (path, name set member); non-trivial = "
-        "the table holds more than one name")
+RULE = ("module case = one generated module (out-of-line ABI or compiled API), alone or the top / an inner "
+        "member of a group of 2-4 modules including each other (pair, chain3, fan3, mixed4, diamond4), "
+        "declaring 1-400 (API: 1-60, API groups 16-150) names per kind (globals: #define / enumerator / "
+        "function / variadic function / variable / integer constant / non-integer constant / extern "
+        "\"Python\"; struct+union tags complete / opaque / partial / with an anonymous inner struct; "
+        "enum tags with 1-40 enumerators; typedefs; typedef-only structs, unions, enums), names grown by "
+        "mutation from each other (prefix, extension by '_'/digit/letter, case flips, last character "
+        "moved across the digit<upper<'_'<lower borders, doubled, standard type names +-1 character, "
+        "49-300 characters with a common prefix), the same spelling reused across tables where C allows; "
+        "every declared name is looked up on every entry point that applies to its kind (lib getattr "
+        "+ cached getattr, integer_const, addressof, setattr, array length in a type string, def_extern, "
+        "typeof/sizeof/getctype/new, lazy completion, lib.__dict__/__all__/dir) and must give its own "
+        "identity (value / array length / struct size / inner field / enumerator map), about 2 "
+        "undeclared neighbours per name must be rejected on the same entry points; table case = one "
+        "synthetic sorted table of 0-400 names in the stand-alone harness with all names and 10x as many "
+        "absent keys, each as an unterminated exact-size key and embedded in a longer identifier, "
+        "through the 4 search_in_* functions and parse_c_type; distinct = (path, name set member); "
+        "non-trivial = the table holds more than one name")
 ASSUMPTIONS = ["identifiers are ASCII C identifiers (plus cffi's own '$' names in the synthetic tables); "
                "C keywords, names cffi resolves without any declaration (standard/common types) and "
-               "names starting with '__' / '_cffi' are outside the class",
+               "names starting with '__' / '_cffi' are outside the class; so are lookup keys that are "
+               "not identifiers (e.g. with an embedded NUL)",
                "API modules avoid every identifier token of the preprocessed Python.h + generated "
                "wrapper code (they would not compile); the ABI modules have no such restriction",
                "an undeclared typedef probe is skipped when a context-free _cffi_backend.FFI() resolves it",
-               "ABI functions/variables are not in the dlopen(None) namespace: 'found' is decided by the "
-               "error class (ffi.error 'symbol not found' = entry found, AttributeError = not found)"]
+               "ABI functions/variables/constants without value are resolved by dlsym() in dlopen(None): "
+               "'found' is decided by the error class (ffi.error 'symbol not found' = entry found, "
+               "AttributeError = not found) and their value is not judged",
+               "names of an included module: types, constants, and in API mode functions and variables "
+               "must be found through the including module (doc/source/cdef.rst, ffi.include()); the array "
+               "length lookup inside a type string only sees the module's own table (macros of included "
+               "modules are counted, not judged); def_extern goes through the declaring module's ffi"]
 
 KEYWORDS = set('''auto break case char const continue default do double else enum extern float for
 goto if inline int long register restrict return short signed sizeof static struct switch typedef
@@ -58,14 +78,15 @@ IDRE = re.compile(r'[A-Za-z_][A-Za-z0-9_]*\Z')
 FIRST = string.ascii_letters + '_'
 IDCH = FIRST + string.digits
 ORDERED = ''.join(sorted(IDCH))            # 0-9 < A-Z < '_' < a-z
-ABI_GK = ['macro'] * 4 + ['func', 'var']
-API_GK = ['macro', 'macro', 'func', 'var', 'dconst', 'externpy']
+ABI_GK = ['macro'] * 8 + ['func', 'func', 'var', 'var', 'dconst', 'iconst']
+API_GK = ['macro', 'macro', 'func', 'var', 'dconst', 'externpy', 'iconst', 'vfunc']
+SYMBOL_KINDS = ('func', 'var', 'dconst', 'iconst')     # ABI: resolved by dlsym() after the lookup
 
 
 # ---- identifier sets ---------------------------------------------------------
 
 def ok_name(s, avoid=()):
-    return (IDRE.match(s) is not None and len(s) <= 48 and s not in KEYWORDS and
+    return (IDRE.match(s) is not None and len(s) <= 300 and s not in KEYWORDS and
             not s.startswith(('__', '_cffi', '_CFFI')) and s not in avoid)
 
 
@@ -113,6 +134,12 @@ def gen_pool(rng, n, avoid=(), seeds=()):
             s = rng.choice(['struct', 'union', 'enum']) + rng.choice(
                 ['_', 's', 'ure', 'erate', '_info', '0', 'S', '_t', 'x_t', '_find_t']) + \
                 rng.choice(['', '', rng.choice(alpha)])
+        elif r < 0.33:
+            # long identifiers sharing a long prefix (longer than any '%.200s' in the lookup code)
+            base = rng.choice(lst) if lst and rng.random() < 0.7 else rng.choice(first)
+            unit = ''.join(rng.choice(alpha) for _ in range(rng.choice([1, 7])))
+            s = (base + unit * 300)[:rng.choice([49, 64, 100, 199, 200, 201, 255, 290])] + \
+                rng.choice(['', '', rng.choice(alpha)])
         elif lst and r < 0.85:
             s = mutate(rng, rng.choice(lst), alpha)
         else:
@@ -145,11 +172,13 @@ def logsize(rng, hi):
 
 # ---- module plans ------------------------------------------------------------
 
-def plan_module(rng, name, mode, hi, avoid=()):
-    ng, nt, ns, ne = [logsize(rng, hi) for _ in range(4)]
+SU_FLAVOURS = ['full'] * 5 + ['opaque', 'nested', 'nested']
+
+
+def plan_module(rng, name, mode, hi, avoid=(), lo=1):
+    ng, nt, ns, ne = [max(lo, logsize(rng, hi)) for _ in range(4)]
     if mode == 'api':
-        ng = max(ng, min(hi, 12)) + ne          # enough globals for all six kinds
-    ne = min(ne, ng)
+        ng = max(ng, min(hi, 16)) + ne          # enough globals for all kinds
     ordn = gen_pool(rng, ng + nt, avoid)
     tagn = gen_pool(rng, ns + ne, avoid, seeds=ordn)
     rng.shuffle(ordn)
@@ -158,60 +187,113 @@ def plan_module(rng, name, mode, hi, avoid=()):
     glob = [[n, None, i] for i, n in enumerate(gn)]
     free = list(range(ng))
     rng.shuffle(free)
+    free = free[:ng - max(1, ng // 3)]      # at least a third of the globals are not enumerators
+    ne = min(ne, len(free))
+    tagn, en = tagn[:ns + ne], en[:ne]
     enums = []
     for tag in en:
-        k = min(len(free) - (len(en) - len(enums) - 1), rng.choice([1, 1, 1, 2, 3]))
+        k = min(len(free) - (len(en) - len(enums) - 1),
+                rng.choice([1] * 8 + [2, 2, 2, 3, 3, 3, 5, rng.randint(6, 40)]))
         ens = [free.pop() for _ in range(max(1, k))]
         for i in ens:
             glob[i][1] = 'enumerator'
         enums.append([tag, [[gn[i], i] for i in ens]])
-    for g in glob:
-        if g[1] is None:
-            g[1] = rng.choice(ABI_GK if mode == 'abi' else API_GK)
     typedefs = [[n, i] for i, n in enumerate(tn)]
-    sus = [[n, rng.choice(['struct', 'struct', 'union']), i] for i, n in enumerate(sn)]
-    # struct/unions that only have a typedef name (table key '$NAME', realized lazily)
+    flav = SU_FLAVOURS + (['partial'] if mode == 'api' else [])
+    # flavour: 'full' { char f_[i+1]; } / 'opaque' (tag only) / 'nested' (a field whose type is
+    # an anonymous struct: table key '$<counter>', looked up by name when its fields are
+    # needed) / 'partial' (API: "...;")
+    sus = [[n, rng.choice(['struct', 'struct', 'union']), i, rng.choice(flav)]
+           for i, n in enumerate(sn)]
+    # struct/unions/enums that only have a typedef name (table key '$NAME', realized lazily)
+    tonly = gen_pool(rng, logsize(rng, max(2, hi // 2)) + logsize(rng, max(2, hi // 8)),
+                     set(avoid) | set(ordn), seeds=tagn)
+    nae = min(logsize(rng, max(2, hi // 8)), len(tonly) - 1, len(free))
     anon = [[n, rng.choice(['struct', 'struct', 'union']), i] for i, n in
-            enumerate(gen_pool(rng, logsize(rng, max(2, hi // 2)), set(avoid) | set(ordn),
-                               seeds=tagn))]
+            enumerate(tonly[:len(tonly) - nae])]
+    anon_enums = []
+    for n in tonly[len(tonly) - nae:]:
+        ens = [free.pop() for _ in range(min(len(free), rng.choice([1, 1, 2, 5])))]
+        if not ens:
+            break
+        for i in ens:
+            glob[i][1] = 'enumerator'
+        anon_enums.append([n, [[gn[i], i] for i in ens]])
     if mode == 'abi' and rng.random() < 0.5:
         # the same spelling in two tables where cffi keeps them apart: macro / typedef and
         # struct tag / enum tag (an API module could not be compiled with these)
-        for n, kw, i in sus[:max(1, ns // 5)]:
+        for n, kw, i, fl in sus[:max(1, ns // 5)]:
             if n not in en and free:
                 i = free.pop()
                 glob[i][1] = 'enumerator'
                 enums.append([n, [[gn[i], i]]])
+    for g in glob:
+        if g[1] is None:
+            g[1] = rng.choice(ABI_GK if mode == 'abi' else API_GK)
+    if mode == 'abi' and rng.random() < 0.5:
+        taken = set(tn) | set(tonly)
         for n, kind, i in glob[:max(1, ng // 5)]:
-            if kind == 'macro' and n not in tn:
+            if kind == 'macro' and n not in taken:
                 typedefs.append([n, len(typedefs)])
     return {'name': name, 'mode': mode, 'globals': glob, 'typedefs': typedefs, 'sus': sus,
-            'anon': anon, 'enums': enums, 'includes': None, 'shuffle': rng.getrandbits(32)}
+            'anon': anon, 'enums': enums, 'anon_enums': anon_enums, 'includes': [],
+            'shuffle': rng.getrandbits(32)}
 
 
-def split_pair(rng, plan, name_a):
-    """A declares a random part of `plan`, plan['name'] (B) the rest and includes A"""
-    a = dict(plan, name=name_a, includes=None)
-    b = dict(plan, includes=name_a)
-    pick = lambda lst: [rng.random() < 0.5 for _ in lst]
-    e = pick(plan['enums'])
-    a['enums'] = [x for x, k in zip(plan['enums'], e) if k]
-    b['enums'] = [x for x, k in zip(plan['enums'], e) if not k]
-    a_en = set(n for x in a['enums'] for n, i in x[1])
-    g = [(n in a_en) if kind == 'enumerator' else (rng.random() < 0.5)
-         for n, kind, i in plan['globals']]
-    a['globals'] = [x for x, k in zip(plan['globals'], g) if k]
-    b['globals'] = [x for x, k in zip(plan['globals'], g) if not k]
+# include graphs: entry j lists the (earlier) modules that module j includes; the last module
+# reaches every other one
+SHAPES = {'pair': [[], [0]], 'chain3': [[], [0], [1]], 'fan3': [[], [], [0, 1]],
+          'mixed4': [[], [0], [], [2, 1]], 'diamond4': [[], [0], [0], [1, 2]]}
+SHAPE_CYCLE = ['mixed4', 'diamond4', 'chain3', 'fan3', 'pair']     # every run has each of them
+ITEM_KEYS = ('globals', 'typedefs', 'sus', 'anon', 'enums', 'anon_enums')
+
+
+def split_group(rng, plan, names, shape):
+    """the declarations of `plan` dealt out to len(names) modules that include each other as
+    SHAPES[shape] says (enumerators stay with their enum)"""
+    incl = SHAPES[shape]
+    k = len(incl)
+    mods = [dict(plan, name=names[j], includes=[names[x] for x in incl[j]], shape=shape,
+                 **dict((key, []) for key in ITEM_KEYS)) for j in range(k)]
+    where = {}
+    for key in ('enums', 'anon_enums'):
+        for x in plan[key]:
+            j = rng.randrange(k)
+            mods[j][key].append(x)
+            for n, i in x[1]:
+                where[n] = j
+    for g in plan['globals']:
+        mods[where[g[0]] if g[1] == 'enumerator' else rng.randrange(k)]['globals'].append(g)
     for key in ('typedefs', 'sus', 'anon'):
-        k = pick(plan[key])
-        a[key] = [x for x, kk in zip(plan[key], k) if kk]
-        b[key] = [x for x, kk in zip(plan[key], k) if not kk]
-    return a, b
+        for x in plan[key]:
+            mods[rng.randrange(k)][key].append(x)
+    return mods
+
+
+def closure(mods, top):
+    """the modules that `top` includes, directly or not, and `top` itself, in build order"""
+    need, by = set([top['name']]), dict((m['name'], m) for m in mods)
+    todo = [top]
+    while todo:
+        for inc in todo.pop()['includes']:
+            if inc not in need:
+                need.add(inc)
+                todo.append(by[inc])
+    return [m for m in mods if m['name'] in need]
+
+
+def su_decl(n, kw, i, fl, cdef):
+    if fl == 'opaque':
+        return '%s %s;' % (kw, n)
+    if fl == 'nested':
+        return '%s %s { char f_[%d]; struct { char g_[%d]; } in_; };' % (kw, n, i + 1, i + 1)
+    return '%s %s { char f_[%d]; %s};' % (kw, n, i + 1, '...; ' if fl == 'partial' and cdef else '')
 
 
 def render(plan):
-    """(cdef text, C source) of one plan; every value/size is the entry's identity"""
-    decl, src = [], []
+    """(cdef text, C source of the types, C source of the rest) of one plan; every value/size
+    is the entry's identity"""
+    decl, types, src = [], [], []
     for n, kind, i in plan['globals']:
         if kind == 'macro':
             decl.append('#define %s %d' % (n, i))
@@ -227,33 +309,44 @@ def render(plan):
             src.append('static const double %s = %d.0;' % (n, i))
         elif kind == 'externpy':
             decl.append('extern "Python" int %s(int);' % n)
+        elif kind == 'iconst':
+            decl.append('static const int %s;' % n)
+            src.append('static const int %s = %d;' % (n, i))
+        elif kind == 'vfunc':
+            decl.append('int %s(int, ...);' % n)
+            src.append('int %s(int a, ...) { return %d; }' % (n, i))
     for tag, ens in plan['enums']:
         d = 'enum %s { %s };' % (tag, ', '.join('%s = %d' % (n, i) for n, i in ens))
         decl.append(d)
-        src.append(d)
+        types.append(d)
+    for n, ens in plan.get('anon_enums', []):
+        d = 'typedef enum { %s } %s;' % (', '.join('%s = %d' % (en, i) for en, i in ens), n)
+        decl.append(d)
+        types.append(d)
     for n, i in plan['typedefs']:
         decl.append('typedef char %s[%d];' % (n, i + 1))
-        src.append(decl[-1])
-    for n, kw, i in plan['sus']:
-        decl.append('%s %s { char f_[%d]; };' % (kw, n, i + 1))
-        src.append(decl[-1])
+        types.append(decl[-1])
+    for n, kw, i, fl in plan['sus']:
+        decl.append(su_decl(n, kw, i, fl, True))
+        types.append(su_decl(n, kw, i, fl, False))
     for n, kw, i in plan.get('anon', []):
         decl.append('typedef %s { short h_[%d]; } %s;' % (kw, i + 1, n))
-        src.append(decl[-1])
+        types.append(decl[-1])
     random.Random(plan['shuffle']).shuffle(decl)
-    return '\n'.join(decl), '\n'.join(src)
+    return '\n'.join(decl), '\n'.join(types), '\n'.join(src)
 
 
 def lookup_case(rng, plans, others=()):
     """the lookup case through plans[-1]; plans[:-1] are the modules it includes"""
     g = set(n for p in plans for n, k, i in p['globals'])
     t = set(n for p in plans for n, i in p['typedefs']) | \
-        set(n for p in plans for n, kw, i in p.get('anon', []))
-    s = set(n for p in plans for n, kw, i in p['sus'])
+        set(n for p in plans for n, kw, i in p.get('anon', [])) | \
+        set(x[0] for p in plans for x in p.get('anon_enums', []))
+    s = set(n for p in plans for n, kw, i, fl in p['sus'])
     e = set(x[0] for p in plans for x in p['enums'])
     og = [n for p in others for n, k, i in p['globals']][:60]
     ot = [n for p in others for n, i in p['typedefs']][:60]
-    osu = [n for p in others for n, kw, i in p['sus']][:60]
+    osu = [n for p in others for n, kw, i, fl in p['sus']][:60]
     oe = [x[0] for p in others for x in p['enums']][:60]
     cross = sorted(g | t | s | e)
     rng.shuffle(cross)
@@ -275,26 +368,30 @@ def child_setup(setup, wd):
     return {'dir': setup['dir'], 'empty': _cffi_backend.FFI()}
 
 
-def make_ffi(plans):
+def make_ffis(plans):
     from cffi import FFI
-    ffi = None
+    ffis = {}
     for p in plans:
         f = FFI()
-        if ffi is not None:
-            f.include(ffi)
+        for inc in p.get('includes') or []:
+            f.include(ffis[inc])
         f.cdef(render(p)[0])
         f.set_source(p['name'], None)
-        ffi = f
-    return ffi
+        ffis[p['name']] = f
+    return ffis
 
 
 def child_case(st, case):
     if case['op'] == 'emit':
-        for i in range(len(case['plans'])):
-            p = case['plans'][i]
-            make_ffi(case['plans'][:i + 1]).emit_python_code(os.path.join(st['dir'], p['name'] + '.py'))
+        ffis = make_ffis(case['plans'])
+        for p in case['plans']:
+            ffis[p['name']].emit_python_code(os.path.join(st['dir'], p['name'] + '.py'))
         return {'ok': True}
     return do_lookup(st, case)
+
+
+ARRFORMS = [('char[%s]', 'char[%d]'), ('char[ %s ]', 'char[%d]'), ('short[%s][2]', 'short[%d][2]'),
+            ('char(*)[%s]', 'char(*)[%d]'), ('char[2][%s]', 'char[2][%d]')]
 
 
 def do_lookup(st, case):
@@ -303,23 +400,29 @@ def do_lookup(st, case):
     plans = case['plans']
     top = plans[-1]
     mode = top['mode']
-    via = 'include' if len(plans) > 1 else mode
+    via = mode if len(plans) == 1 else 'include' if mode == 'abi' else 'include_api'
     m = importlib.import_module(top['name'])
     ffi = m.ffi
     lib = m.lib if mode == 'api' else ffi.dlopen(None)
+    mods = dict((p['name'], importlib.import_module(p['name'])) for p in plans) if mode == 'api' else {}
     err = ffi.error
     rnd = random.Random(case['seed'])
     only = case.get('only')
     own = set(n for n, k, i in top['globals'])
+    # the names in the top module's own table of globals: its own ones and the enumerators of
+    # every enum it includes
+    owntab = own | set(en for p in plans for x in p['enums'] + p.get('anon_enums', [])
+                       for en, i in x[1])
     ntab = {'global': sum(len(p['globals']) for p in plans),
             'typedef': sum(len(p['typedefs']) for p in plans),
             'su': sum(len(p['sus']) for p in plans), 'enum': sum(len(p['enums']) for p in plans),
-            'anon': sum(len(p.get('anon', [])) for p in plans)}
+            'anon': sum(len(p.get('anon', [])) for p in plans),
+            'anon_enum': sum(len(p.get('anon_enums', [])) for p in plans)}
 
     def bad(path, what, msg, kind, name):
         rep.bad('%s:%s' % (path, what), '%s module %s (%d globals, %d typedefs, %d struct/unions, '
                 '%d enums): %s' % (via, top['name'], ntab['global'], ntab['typedef'], ntab['su'],
-                                   ntab['enum'], msg), [kind, name])
+                                   ntab['enum'], msg[:700]), [kind, name])
 
     def outcome(fn):
         try:
@@ -331,26 +434,36 @@ def do_lookup(st, case):
         except Exception as e:
             return 'exc', '%s: %s' % (type(e).__name__, e)
 
-    def t_global(n, kind, i):
-        k, v = outcome(lambda: getattr(lib, n))
-        rep.stat('getattr_declared_' + kind)
-        if k == 'attr' or k == 'exc':
-            bad('getattr', 'declared-not-found', 'lib.%s (%s) -> %s %s' % (n, kind, k, v), 'global', n)
-        elif k == 'err':
-            # entry found, but the symbol is not in dlopen(None) / belongs to the included lib
-            if not (mode == 'abi' and kind in ('func', 'var')):
-                bad('getattr', 'declared-not-found', 'lib.%s (%s) -> %s' % (n, kind, v), 'global', n)
-        else:
-            if kind in ('func', 'externpy'):
-                got = 'skipped' if mode == 'abi' else outcome(lambda: v(0) if kind == 'externpy' else v())[1]
+    def t_global(n, kind, i, owner):
+        isint = kind in ('macro', 'enumerator') or (kind == 'iconst' and mode == 'api')
+        if len(n) > 64:
+            rep.stat('names_longer_than_64')
+        if mode == 'api' and owner != top['name'] and rnd.random() < 0.3:
+            # history: the included lib has the attribute in its cache already
+            outcome(lambda: getattr(mods[owner].lib, n))
+            rep.stat('included_name_first_fetched_from_owner_lib')
+        for again in range(2 if rnd.random() < 0.25 else 1):
+            k, v = outcome(lambda: getattr(lib, n))
+            rep.stat('getattr_again_declared' if again else 'getattr_declared_' + kind)
+            if k == 'attr' or k == 'exc':
+                bad('getattr', 'declared-not-found', 'lib.%s (%s) -> %s %s' % (n, kind, k, v), 'global', n)
+            elif k == 'err':
+                # entry found, but the symbol is not in dlopen(None) / belongs to the included lib
+                if not (mode == 'abi' and kind in SYMBOL_KINDS):
+                    bad('getattr', 'declared-not-found', 'lib.%s (%s) -> %s' % (n, kind, v), 'global', n)
             else:
-                got = v
-            if got != 'skipped' and not (mode == 'abi' and kind == 'var') and got != i:
-                bad('getattr', 'wrong-entry', 'lib.%s (%s) gives %r, its own entry is %r' %
-                    (n, kind, got, i), 'global', n)
+                if mode == 'abi' and kind in SYMBOL_KINDS:
+                    got = 'skipped'     # some symbol of the process that happens to have this name
+                elif kind in ('func', 'externpy', 'vfunc'):
+                    got = outcome(lambda: v() if kind == 'func' else v(0))[1]
+                else:
+                    got = v
+                if got != 'skipped' and got != i:
+                    bad('getattr', 'wrong-entry', 'lib.%s (%s) gives %r, its own entry is %r' %
+                        (n, kind, got, i), 'global', n)
         k, v = outcome(lambda: ffi.integer_const(n))
         rep.stat('integer_const_declared_' + kind)
-        if kind in ('macro', 'enumerator'):
+        if isint:
             if k != 'val':
                 bad('integer_const', 'declared-not-found', "integer_const('%s') -> %s %s" % (n, k, v),
                     'global', n)
@@ -360,28 +473,100 @@ def do_lookup(st, case):
         elif k != 'err':
             bad('integer_const', 'declared-not-found', "integer_const('%s') (%s: the entry exists, an "
                 "ffi.error is due) -> %s %r" % (n, kind, k, v), 'global', n)
+        if isint:
+            # an integer constant named as an array length inside a type string
+            form, want = rnd.choice(ARRFORMS)
+            k, v = outcome(lambda: ffi.typeof(form % n).cname)
+            if n not in owntab:
+                # the array-length lookup does not follow ffi.include(): outside the statement
+                rep.stat('array_length_macro_of_included_module_' +
+                         ('found' if (k, v) == ('val', want % i) else 'not_found'))
+            else:
+                rep.stat('array_length_declared_' + kind)
+                if k != 'val':
+                    bad('array-length', 'declared-not-found', 'typeof(%r) -> %s %s' % (form % n, k, v),
+                        'global', n)
+                elif v != want % i:
+                    bad('array-length', 'wrong-entry', 'typeof(%r) is %s, its own entry is %d' %
+                        (form % n, v, i), 'global', n)
+        if kind in ('func', 'var', 'vfunc'):
+            k, v = outcome(lambda: ffi.addressof(lib, n))
+            rep.stat('addressof_declared_' + kind)
+            if k in ('attr', 'exc') or (k == 'err' and mode != 'abi'):
+                bad('addressof', 'declared-not-found', 'addressof(lib, %r) (%s) -> %s %s' %
+                    (n, kind, k, v), 'global', n)
+            elif k == 'val' and mode == 'api':
+                got = outcome(lambda: v[0] if kind == 'var' else v() if kind == 'func' else v(0))[1]
+                if got != i:
+                    bad('addressof', 'wrong-entry', 'addressof(lib, %r) (%s) leads to %r, its own '
+                        'entry is %r' % (n, kind, got, i), 'global', n)
+        if kind == 'var' and mode == 'api':
+            k, v = outcome(lambda: (setattr(lib, n, i + 100000), getattr(lib, n),
+                                    ffi.addressof(lib, n)[0], setattr(lib, n, i)))
+            rep.stat('setattr_declared_var')
+            if k != 'val':
+                bad('setattr', 'declared-not-found', 'lib.%s = x -> %s %s' % (n, k, v), 'global', n)
+            elif v[1:3] != (i + 100000, i + 100000):
+                bad('setattr', 'wrong-entry', 'lib.%s = %d, then it reads %r' % (n, i + 100000, v[1:3]),
+                    'global', n)
 
     def t_typedef(n, i):
-        form, want = rnd.choice([('%s', 'char[%d]'), (' %s ', 'char[%d]'), ('%s*', 'char(*)[%d]'),
-                                 ('%s[2]', 'char[2][%d]'), ('%s\t*', 'char(*)[%d]')])
-        k, v = outcome(lambda: ffi.typeof(form % n).cname)
-        rep.stat('typeof_typedef_declared')
+        if len(n) > 64:
+            rep.stat('names_longer_than_64')
+        how = rnd.choice(['typeof'] * 4 + ['sizeof', 'getctype', 'new'])
+        if how == 'typeof':
+            form, want = rnd.choice([('%s', 'char[%d]'), (' %s ', 'char[%d]'), ('%s*', 'char(*)[%d]'),
+                                     ('%s[2]', 'char[2][%d]'), ('%s\t*', 'char(*)[%d]'),
+                                     ('int(*)(%s *)', 'int(*)(char(*)[%d])')])
+            text, want = form % n, want % (i + 1)
+            k, v = outcome(lambda: ffi.typeof(text).cname)
+        elif how == 'sizeof':
+            text, want = n, i + 1
+            k, v = outcome(lambda: ffi.sizeof(text))
+        elif how == 'getctype':
+            text, want = n, 'char[%d]' % (i + 1)
+            k, v = outcome(lambda: ffi.getctype(text))
+        else:
+            text, want = n + ' *', 'char(*)[%d]' % (i + 1)
+            k, v = outcome(lambda: ffi.typeof(ffi.new(text)).cname)
+        rep.stat('typeof_typedef_declared' if how == 'typeof' else how + '_typedef_declared')
         if k != 'val':
-            bad('typeof', 'declared-not-found', 'typeof(%r) -> %s %s' % (form % n, k, v), 'typedef', n)
-        elif v != want % (i + 1):
-            bad('typeof', 'wrong-entry', 'typeof(%r) is %s, its own entry is %s' %
-                (form % n, v, want % (i + 1)), 'typedef', n)
+            bad(how, 'declared-not-found', '%s(%r) -> %s %s' % (how, text, k, v), 'typedef', n)
+        elif v != want:
+            bad(how, 'wrong-entry', '%s(%r) gives %s, its own entry gives %s' % (how, text, v, want),
+                'typedef', n)
 
-    def t_su(n, kw, i):
-        form = rnd.choice(['%s %s', '%s  %s', ' %s %s '])
-        k, v = outcome(lambda: (ffi.typeof(form % (kw, n)).cname, ffi.sizeof('%s %s' % (kw, n))))
+    def t_su(n, kw, i, fl):
+        if len(n) > 64:
+            rep.stat('names_longer_than_64')
+        form = rnd.choice(['%s %s', '%s  %s', ' %s %s ', '%s %s*', '%s\t%s *'] +
+                          ([] if fl == 'opaque' else ['%s %s[2]']))
+
+        def f():
+            t = ffi.typeof(form % (kw, n))
+            if form.endswith(('*', ']')):
+                t = t.item
+            if fl == 'opaque':
+                return t.cname, t.kind, t.fields
+            if fl == 'nested':
+                # the fields of the anonymous inner struct come from a lookup of its '$<n>' key
+                inner = dict(t.fields)['in_'].type
+                return (t.cname, ffi.sizeof('%s %s' % (kw, n)), inner.kind,
+                        [(a, b.type.cname) for a, b in inner.fields])
+            return t.cname, ffi.sizeof('%s %s' % (kw, n))
+        k, v = outcome(f)
         rep.stat('typeof_%s_declared' % kw)
+        rep.stat('tag_flavour_' + fl)
+        name = '%s %s' % (kw, n)
+        want = {'opaque': (name, kw, None),
+                'nested': (name, (i + 1) * (2 if kw == 'struct' else 1), 'struct',
+                           [('g_', 'char[%d]' % (i + 1))])}.get(fl, (name, i + 1))
         if k != 'val':
-            bad('struct', 'declared-not-found', 'typeof/sizeof(%r) -> %s %s' % (form % (kw, n), k, v),
-                'su', n)
-        elif v != ('%s %s' % (kw, n), i + 1):
-            bad('struct', 'wrong-entry', 'typeof(%r) is %s of size %d, its own entry has size %d' %
-                (form % (kw, n), v[0], v[1], i + 1), 'su', n)
+            bad('struct', 'declared-not-found', 'typeof/sizeof(%r) (%s) -> %s %s' %
+                (form % (kw, n), fl, k, v), 'su', n)
+        elif v != want:
+            bad('struct', 'wrong-entry', 'typeof(%r) (%s) is %r, its own entry is %r' %
+                (form % (kw, n), fl, v, want), 'su', n)
         other = 'union' if kw == 'struct' else 'struct'
         k, v = outcome(lambda: ffi.typeof('%s %s' % (other, n)).cname)
         rep.stat('wrong_tag_kind_probe')
@@ -414,26 +599,41 @@ def do_lookup(st, case):
             bad('anon-struct', 'wrong-entry', 'typedef-only %s %r realized as %r, its own entry is '
                 '%r' % (kw, n, v, want), 'anon', n)
 
-    def t_enum(tag, ens):
+    def t_enum(tag, ens, typedef_only=False):
         def f():
-            t = ffi.typeof('enum ' + tag)
-            return t.cname, sorted(t.elements.items()), sorted(t.relements.items())
+            form = rnd.choice(['%s', '%s', ' %s ', '%s*', '%s [3]'])
+            t = ffi.typeof(form % (tag if typedef_only else rnd.choice(['enum ', 'enum\t ']) + tag))
+            if form.endswith(('*', ']')):
+                t = t.item
+            return t.cname, sorted(t.elements.items()), sorted(t.relements.items()), t.kind
         k, v = outcome(f)
-        rep.stat('typeof_enum_declared')
-        want = ('enum ' + tag, sorted([i, n] for n, i in ens), sorted([n, i] for n, i in ens))
+        rep.stat('typedef_only_enum_realized' if typedef_only else 'typeof_enum_declared')
+        if len(ens) > 3:
+            rep.stat('enums_with_more_than_3_enumerators')
+        path = 'anon-enum' if typedef_only else 'enum'
+        want = (tag if typedef_only else 'enum ' + tag, sorted([i, n] for n, i in ens),
+                sorted([n, i] for n, i in ens), 'enum')
         if k != 'val':
-            bad('enum', 'declared-not-found', "typeof('enum %s') -> %s %s" % (tag, k, v), 'enum', tag)
-        elif (v[0], [list(x) for x in v[1]], [list(x) for x in v[2]]) != want:
-            bad('enum', 'wrong-entry', "typeof('enum %s') is %r, its own entry is %r" % (tag, v, want),
-                'enum', tag)
+            bad(path, 'declared-not-found', "typeof(%r) -> %s %s" % (want[0], k, v),
+                'anon_enum' if typedef_only else 'enum', tag)
+        elif (v[0], [list(x) for x in v[1]], [list(x) for x in v[2]], v[3]) != want:
+            bad(path, 'wrong-entry', "typeof(%r) is %r, its own entry is %r" % (want[0], v, want),
+                'anon_enum' if typedef_only else 'enum', tag)
 
     def t_absent(kind, p):
         if kind == 'global':
-            for path, fn in (('getattr', lambda: getattr(lib, p)),
-                             ('integer_const', lambda: ffi.integer_const(p))):
+            paths = [('getattr', lambda: getattr(lib, p), 'attr'),
+                     ('integer_const', lambda: ffi.integer_const(p), 'attr'),
+                     ('addressof', lambda: ffi.addressof(lib, p), 'attr')]
+            if p:
+                form = rnd.choice(ARRFORMS)[0]
+                paths.append(('array-length', lambda: ffi.typeof(form % p).cname, 'err'))
+            if mode == 'api':
+                paths.append(('setattr', lambda: setattr(lib, p, 0), 'attr'))
+            for path, fn, due in paths:
                 k, v = outcome(fn)
-                rep.stat(path + '_undeclared')
-                if k != 'attr':
+                rep.stat(path.replace('-', '_') + '_undeclared')
+                if k != due:
                     bad(path, 'undeclared-found' if k == 'val' else 'undeclared-wrong-exception',
                         'undeclared %r -> %s %r' % (p, k, v), kind, p)
             if mode == 'api':
@@ -463,16 +663,18 @@ def do_lookup(st, case):
     for p in plans:
         for n, kind, i in p['globals']:
             if kind == 'externpy':           # bind every extern "Python" name to its own identity
-                k, v = outcome(lambda: ffi.def_extern(name=n)(lambda x, i=i: x + i))
+                # (through the ffi of the module that declares it)
+                k, v = outcome(lambda: mods[p['name']].ffi.def_extern(name=n)(lambda x, i=i: x + i))
                 rep.stat('def_extern_declared')
                 if k != 'val':
                     bad('def_extern', 'declared-not-found', 'def_extern(name=%r) -> %s %s' % (n, k, v),
                         'global', n)
-            tasks.append(('global', n, t_global, (n, kind, i)))
+            tasks.append(('global', n, t_global, (n, kind, i, p['name'])))
         tasks += [('typedef', n, t_typedef, (n, i)) for n, i in p['typedefs']]
-        tasks += [('su', n, t_su, (n, kw, i)) for n, kw, i in p['sus']]
+        tasks += [('su', n, t_su, (n, kw, i, fl)) for n, kw, i, fl in p['sus']]
         tasks += [('anon', n, t_anon, (n, kw, i)) for n, kw, i in p.get('anon', [])]
         tasks += [('enum', tag, t_enum, (tag, ens)) for tag, ens in p['enums']]
+        tasks += [('anon_enum', n, t_enum, (n, ens, True)) for n, ens in p.get('anon_enums', [])]
     ndecl = len(tasks)
     for kind, lst in sorted(case['absent'].items()):
         tasks += [(kind, p, t_absent, (kind, p)) for p in lst]
@@ -486,7 +688,7 @@ def do_lookup(st, case):
             import traceback
             rep.bad('harness-exception', traceback.format_exc()[-900:], [kind, n])
         rep.case((fn is t_absent, kind, n), nontrivial=ntab[kind] > 1,
-                 sample={'module': via, 'kind': kind, 'name': n, 'declared': fn is not t_absent})
+                 sample={'module': via, 'kind': kind, 'name': n[:80], 'declared': fn is not t_absent})
     if not only:
         d = set(dir(lib))
         every = set(n for p in plans for n, k, i in p['globals'])
@@ -494,7 +696,30 @@ def do_lookup(st, case):
         if not (own <= d <= every):
             bad('dir', 'differs', 'dir(lib): missing %r, undeclared %r' %
                 (sorted(own - d)[:5], sorted(d - every)[:5]), 'global', '')
+        # lib.__all__: the table without the variables; lib.__dict__ (API): every name of the
+        # table looked up and built
+        novar = set(n for p in plans for n, k, i in p['globals'] if k == 'var')
+        k, v = outcome(lambda: set(lib.__all__))
+        rep.stat('all_lib_checked')
+        if k != 'val' or not (own - novar <= v <= every - novar):
+            bad('all', 'differs', 'lib.__all__: %s, missing %r, undeclared %r' %
+                ((k, '', '') if k != 'val' else (k, sorted(own - novar - v)[:5],
+                                                 sorted(v - (every - novar))[:5])), 'global', '')
+        if mode == 'api':
+            k, v = outcome(lambda: dict(lib.__dict__))
+            rep.stat('dict_lib_checked')
+            if k != 'val' or not (own <= set(v) <= every):
+                bad('dict', 'differs', 'lib.__dict__: %s, missing %r, undeclared %r' %
+                    ((k, v, '') if k != 'val' else (k, sorted(own - set(v))[:5],
+                                                    sorted(set(v) - every)[:5])), 'global', '')
+            else:
+                for n, kind, i in top['globals']:
+                    if kind in ('macro', 'enumerator', 'dconst', 'iconst') and v[n] != i:
+                        bad('dict', 'wrong-entry', 'lib.__dict__[%r] is %r, its own entry is %r' %
+                            (n, v[n], i), 'global', '')
     rep.stat('modules_' + via)
+    if len(plans) > 1:
+        rep.stat('modules_%s_shape_%s' % (via, top.get('shape')))
     rep.stat('names_declared_' + via, ndecl)
     return rep.result()
 
@@ -649,7 +874,7 @@ def run_fuzz(ctx, seconds):
             data = f.read()
     rc = {'op': 'fuzz', 'hex': data.hex()}
     if any(a.startswith(('timeout-', 'oom-')) for a in arts):
-        ctx.note('libFuzzer stopped on a timeout/oom unit')
+        note(ctx, 'libFuzzer stopped on a timeout/oom unit')
     elif 'C25-HARNESS:' in out:
         bl = [l for l in out.splitlines() if l.startswith('BAD ')][:3]
         ctx.violation('fuzz:lookup-differs', 'libFuzzer input %r: %s' % (data[:300], '; '.join(bl)), rc)
@@ -686,61 +911,97 @@ def api_avoid(ctx):
     return toks - set('Zq%d' % i for i in range(1, 10))
 
 
-def build_all(ctx, moddir, plans_api, emit_cases):
-    """API modules through modbuild (gcc), ABI modules through emit_python_code in plain children"""
+def note(ctx, msg):
+    ctx.note(msg)
+    if os.environ.get('VERIF_DEBUG'):
+        sys.stderr.write('[c25] %s\n' % msg)
+
+
+def build_all(ctx, moddir, api_groups, emit_cases):
+    """API modules through modbuild (gcc), ABI modules through emit_python_code in plain children.
+    api_groups: lists of plans in build order (a module's C source declares the types of
+    everything it includes, as a real '#include' would)"""
     def api():
         specs = []
-        for p in plans_api:
-            cdef, src = render(p)
-            specs.append({'name': p['name'], 'kind': 'api', 'cdef': cdef, 'source': src, 'dir': moddir})
+        for grp in api_groups:
+            r = dict((p['name'], render(p)) for p in grp)
+            for p in grp:
+                inc = [q['name'] for q in closure(grp, p)[:-1]]
+                specs.append({'name': p['name'], 'kind': 'api', 'cdef': r[p['name']][0], 'dir': moddir,
+                              'includes': p['includes'],
+                              'source': '\n'.join([r[x][1] for x in inc] + list(r[p['name']][1:]))})
         res = modbuild.build_modules(ctx, specs, cflags='-O0 -g0 -w') if specs else {}
+        note(ctx, '%d API modules built after %.1fs' % (len(specs), ctx.elapsed()))
         return [(n, r) for n, r in res.items() if not r['ok']]
 
     def abi():
         obs = core.run_cases(ctx, 'c25', {'dir': moddir}, emit_cases, variant='plain',
                              nproc=min(8, core.NPROC))
-        return [(c['plans'][-1]['name'], o) for c, o in zip(emit_cases, obs)
+        note(ctx, '%d ABI emit cases done after %.1fs' % (len(emit_cases), ctx.elapsed()))
+        return [(p['name'], o) for c, o in zip(emit_cases, obs) for p in c['plans']
                 if not (isinstance(o, dict) and o.get('ok'))]
     with cf.ThreadPoolExecutor(2) as ex:
         fa, fb = ex.submit(api), ex.submit(abi)
         return fa.result(), fb.result()
 
 
+def group_cases(rng, mods):
+    """lookups through the module that includes all the others, and through an inner one for
+    which the names of the modules it does not include are undeclared"""
+    inner = rng.choice(mods[:-1])
+    cl = closure(mods, inner)
+    return [lookup_case(rng, cl, others=[m for m in mods if m not in cl]), lookup_case(rng, mods)]
+
+
 def run(ctx):
     rng = ctx.rng('modules')
     moddir = os.path.join(ctx.tmp, 'mods')
     os.makedirs(moddir)
-    nmod = ctx.scale(60, 1500)
-    napi = ctx.scale(8, 36)
+    nmod = ctx.scale(54, 1500)
+    napi = ctx.scale(6, 36)
+    napigroups = ctx.scale(1, 8)
     with cf.ThreadPoolExecutor(2) as ex:
         fh = ex.submit(lambda: run_harness(ctx, gen_tables(ctx), universe(ctx)))
         avoid = api_avoid(ctx)
-        ctx.note('API avoid set (%d tokens) after %.1fs' % (len(avoid), ctx.elapsed()))
-        plans_api, emit_cases, cases = [], [], []
+        note(ctx, 'API avoid set (%d tokens) after %.1fs' % (len(avoid), ctx.elapsed()))
+        api_groups, emit_cases, cases, emit_groups = [], [], [], []
         k = 0
         while k < nmod:
             name = '_c25m%d' % k
-            if len(plans_api) < napi:
-                big = ctx.thorough and len(plans_api) % 6 == 5
+            if len(api_groups) < napi:
+                big = ctx.thorough and len(api_groups) % 6 == 5
                 p = plan_module(rng, name, 'api', 400 if big else 60, avoid)
                 if big:     # bulk kinds only: wrappers for 400 functions take gcc minutes
                     for g in p['globals']:
                         g[1] = 'macro' if g[1] != 'enumerator' else g[1]
-                plans_api.append(p)
+                api_groups.append([p])
                 cases.append(lookup_case(rng, [p]))
                 k += 1
-            elif k % 5 == 0 and k + 1 < nmod:
-                a, b = split_pair(rng, plan_module(rng, '_c25m%d' % (k + 1), 'abi', 400), name)
-                emit_cases.append({'op': 'emit', 'plans': [a, b]})
-                cases.append(lookup_case(rng, [a], others=[b]))
-                cases.append(lookup_case(rng, [a, b]))
-                k += 2
+            elif len(api_groups) < napi + napigroups:
+                # compiled modules that include each other: the lib of the including module gives
+                # the functions and variables of the included ones too
+                shape = SHAPE_CYCLE[(len(api_groups) - napi) % len(SHAPE_CYCLE)]
+                n = len(SHAPES[shape])
+                mods = split_group(rng, plan_module(rng, name, 'api', 150, avoid, lo=16),
+                                   ['_c25m%d' % (k + j) for j in range(n)], shape)
+                api_groups.append(mods)
+                cases += group_cases(rng, mods)
+                k += n
+            elif k % 5 == 0 and k + 4 <= nmod:
+                shape = SHAPE_CYCLE[len(emit_groups) % len(SHAPE_CYCLE)]
+                emit_groups.append(shape)
+                n = len(SHAPES[shape])
+                mods = split_group(rng, plan_module(rng, name, 'abi', 400),
+                                   ['_c25m%d' % (k + j) for j in range(n)], shape)
+                emit_cases.append({'op': 'emit', 'plans': mods})
+                cases += group_cases(rng, mods)
+                k += n
             else:
                 p = plan_module(rng, name, 'abi', 400)
                 emit_cases.append({'op': 'emit', 'plans': [p]})
                 cases.append(lookup_case(rng, [p]))
                 k += 1
-        failed_api, failed_abi = build_all(ctx, moddir, plans_api, emit_cases)
+        failed_api, failed_abi = build_all(ctx, moddir, api_groups, emit_cases)
         for n, r in failed_api:
             ctx.inconclusive('API module %s does not build: %s %s' % (n, r['error'][-300:],
                                                                       r.get('log', '')[-600:]))
@@ -748,15 +1009,15 @@ def run(ctx):
             ctx.inconclusive('ABI module %s was not emitted: %s' % (n, json.dumps(o)[-800:]))
         broken = set(n for n, _ in failed_api + failed_abi)
         cases = [c for c in cases if not any(p['name'] in broken for p in c['plans'])]
-        ctx.count('modules_api_built', len(plans_api) - len(failed_api))
+        ctx.count('modules_api_built', sum(len(g) for g in api_groups) - len(failed_api))
         ctx.count('modules_abi_emitted', sum(len(c['plans']) for c in emit_cases) - len(failed_abi))
-        ctx.note('modules planned and built after %.1fs' % ctx.elapsed())
+        note(ctx, 'modules planned and built after %.1fs' % ctx.elapsed())
         obs = core.run_cases(ctx, 'c25', {'dir': moddir}, cases, variant='asan', timeout=1800)
-        ctx.note('lookups done after %.1fs' % ctx.elapsed())
+        note(ctx, 'lookups done after %.1fs' % ctx.elapsed())
         for c, o in zip(cases, obs):
             judge(ctx, None, c, o)
         fh.result()()
-        ctx.note('harness done after %.1fs' % ctx.elapsed())
+        note(ctx, 'harness done after %.1fs' % ctx.elapsed())
     if ctx.thorough:
         run_fuzz(ctx, 60)
 
@@ -770,6 +1031,13 @@ def judge(ctx, setup, case, obs):
         # module's tables at import) are outside the statement and only recorded
         for kind, frame, block in core.split_reports(obs.pop('_san')):
             ctx.sanitizer(block, dict(case, only=None), deciding=bool(LOOKUP_CODE.search(block)))
+    if isinstance(obs, dict) and '_crash' in obs and 'lost a struct/union' in obs.get('_stderr', ''):
+        # cffi's own fatal error for a table key that the lazy completion of a struct does not find
+        ctx.count('child_crashes')
+        ctx.violation('lazy-struct:lost', 'completing a struct/union of module %s: the lookup of its '
+                      'own table key fails\n%s' % (case['plans'][-1]['name'], obs['_stderr'][-900:]),
+                      dict(case, only=None))
+        return
     if core.std_obs_check(ctx, case, obs):
         core.absorb(ctx, case, obs, lambda d: dict(case, only=d))
 
@@ -794,7 +1062,7 @@ def replay(ctx, data):
         moddir = os.path.join(ctx.tmp, 'mods')
         os.makedirs(moddir)
         top = case['plans'][-1]
-        fa, fb = build_all(ctx, moddir, [top] if top['mode'] == 'api' else [],
+        fa, fb = build_all(ctx, moddir, [case['plans']] if top['mode'] == 'api' else [],
                            [{'op': 'emit', 'plans': case['plans']}] if top['mode'] == 'abi' else [])
         if fa or fb:
             print('replay: the module does not build: %r' % (fa + fb,))
